@@ -94,6 +94,11 @@ theorem Legacy.timeout_answers_empty_while_queued :
     lets `close` discard packets the transport could still take (read from the source) -/
 theorem drain_is_rendezvous : Gen.chanPacketQueueDrain = 0 := by decide
 
+/-- both Engine.IO sockets hand packets to the transport while holding transportMu's read lock, so the swap of an upgrade
+    (write lock, which also carries the old transport's queue over) cannot fall between choosing the transport and enqueueing:
+    otherwise a packet lands in the discarded transport's queue, which nothing ever drains (read from the source) -/
+theorem send_chooses_and_enqueues_under_lock : Gen.eioSendUnderTransportLock = true := by decide
+
 /-! non-vacuity: a reachable state of the repaired queue in which the race happened and the token saves it -/
 example : (sys 1 1).run (sys 1 1).init [.start 0, .get 0, .add [7], .enter 0, .wake 0, .get 0] =
     some ({ packets := [], token := false, pendingSignals := 0, consumers := [.done [7]] }, [.returned 0 [7]]) := by decide
